@@ -244,11 +244,24 @@ pub struct RuleSpec {
     pub path: Template,
     pub markers: Vec<MarkerSpec>,
     pub effects: Effects,
+    /// a rule given as raw JSON (harvested from the repository's fixtures): `to_json` returns it with `id`
+    /// replaced by `self.id`; the flat reference predicate does not know such rules (differential relations only)
+    #[serde(default)]
+    pub raw: Option<Value>,
 }
 
 impl RuleSpec {
+    pub fn from_raw(id: &str, raw: &Value) -> RuleSpec {
+        let mut r = RuleSpec::simple(id, "/");
+        r.rank = raw.get("rank").and_then(|v| v.as_u64()).unwrap_or(0) as u16;
+        r.effects = Effects::default();
+        r.raw = Some(raw.clone());
+        r
+    }
+
     pub fn simple(id: &str, path: &str) -> RuleSpec {
         RuleSpec {
+            raw: None,
             id: id.to_string(),
             rank: 0,
             scheme: None,
@@ -271,6 +284,11 @@ impl RuleSpec {
     }
 
     pub fn to_json(&self) -> Value {
+        if let Some(raw) = &self.raw {
+            let mut v = raw.clone();
+            v["id"] = json!(self.id);
+            return v;
+        }
         let full = self.path.text();
         let (path, query) = match full.find('?') {
             Some(i) => (full[..i].to_string(), Some(full[i + 1..].to_string())),
